@@ -489,34 +489,12 @@ def keys_at_assuming(ctx, ev, body, bb):
 # ================================================================================================
 
 def refined_infeasible(ctx, body, assume_cur=False, extra=None):
-    """Fixpoint of: edges that admit no variant; (optionally) `current task is None` edges; enum
-    edges whose subject is built only from aggregates and whose admitted variants are built only in
-    unreachable blocks (e.g. `let x = if let Some(..) = cur { Some(..) } else { None }; .. if let Some(..) = x`)."""
+    """Fixpoint pruning (core.Body.refine) on top of: edges that admit no variant; optionally the
+    `current task is None` edges; optionally an extra assumption. Handles correlated values such as
+    `let x = if let Some(..) = cur { Some(..) } else { None }; .. if let Some(..) = x`."""
     base = ctx.infeasible(body, assume_cur)
-    dead = set()
-
-    def avoid(n):
-        return base(n) or n in dead or (extra(n) if extra else False)
-    while True:
-        seen = body.reach([0], avoid=avoid)
-        new = set()
-        for (bb, k), g in body.guards.items():
-            node = ('e', bb, k)
-            if node in dead or g.kind != 'enum':
-                continue
-            if not g.origins or not all(o.kind == 'aggr' and not o.path for o in g.origins):
-                continue
-            allowed = set()
-            for o in g.origins:
-                abb, si = o.key
-                if abb in seen:
-                    allowed.add(body.blocks[abb]['stmts'][si]['rv']['ak'].get('variant'))
-            vs = g.variants()
-            if vs is not None and not (vs & allowed):
-                new.add(node)
-        if not new:
-            return avoid
-        dead |= new
+    avoid, _ = body.refine(ctx.both(base, extra) if extra else base)
+    return avoid
 
 
 # ================================================================================================
